@@ -1,6 +1,7 @@
 #!/usr/bin/env python3
 """seeded.py add <id> <patch> <demo> <meta.json> <property>   - store a confirmed seeded change under seeded/<id>/
-   seeded.py run [<id> ...] [--tier quick]                    - apply each to /repo, run the property's check, undo; print a table"""
+   seeded.py run [<id> ...] [--thorough]                      - apply each to a scratch copy of /repo, run the property's check; print a table
+   seeded.py run --harmless [<id> ...]                        - the same for the behaviour-preserving rewrites under harmless/<id>/ (expected: QUIET)"""
 import json
 import os
 import shutil
@@ -76,7 +77,11 @@ def _run(ids, tier, seeds, rows):
         kind = ""
         if outs and outs[0][1]:
             kind = "no-failing-input-found" if "no-failing-input-found" in outs[0][1][0] else "with-failing-input"
-        rows.append((sid, prop, ("CHECK-ERROR rc=%s" % broken[0]) if broken else "CAUGHT" if caught else ("partly" if any(rc == 1 for rc, _ in outs) else "MISSED"), kind))
+        if os.path.basename(SD) == "harmless":
+            # behaviour-preserving rewrites: the check is expected to stay quiet
+            rows.append((sid, prop, ("CHECK-ERROR rc=%s" % broken[0]) if broken else "ALARM" if any(rc == 1 for rc, _ in outs) else "QUIET", kind))
+        else:
+            rows.append((sid, prop, ("CHECK-ERROR rc=%s" % broken[0]) if broken else "CAUGHT" if caught else ("partly" if any(rc == 1 for rc, _ in outs) else "MISSED"), kind))
         print(rows[-1], flush=True)
         record(sid, tier, rows[-1][2], kind)
     return rows
@@ -139,6 +144,9 @@ if __name__ == "__main__":
     elif sys.argv[1] == "add":
         add(*sys.argv[2:7])
     else:
+        if "--harmless" in sys.argv:
+            # behaviour-preserving rewrites (harmless/<id>/patch.diff + meta.json): same procedure, the expectation is QUIET
+            SD = os.path.join(HERE, "harmless")
         a = [x for x in sys.argv[2:] if not x.startswith("--")]
         tier = "thorough" if "--thorough" in sys.argv else "quick"
         run(a, tier)
